@@ -50,6 +50,10 @@ CLAIMED = {
          "Exploration: well-formed numerals (plain digits up to 30 places with leading zeros, Arabic / kanji / mixed / full-width, separators, fractions, unit notation with positional and 千百十 sections and an arbitrarily long top section, fraction x unit) embedded between neutral words must be covered by exactly one token whose normalised form equals the reference decimal string; near misses (bad group width, leading / trailing / double separators, second point, units out of order, leading large unit, noise) must never yield a joined token whose surface is definitely malformed, and joined simple numerals must carry their value. No absence claim.",
          "The generator is a subset of the notations the statement names; shapes outside the generator and outside the malformation rules (e.g. repeated units with a consistent sum reading, zero times a unit) are not judged. Dictionary: one-character numeral entries only (nothing shadows the numeral).",
          "DESIGN.md section 4, C15"),
+ "C16": ("property-based testing (proptest): validity predicates over the produced sentence ranges (partition, terminator suffix, bracket level, dictionary-word veto) plus a converse oracle on a constructively simple family",
+         "Exploration: texts over terminators, ・ runs, <br> tags, nested / unbalanced brackets, commas, alphanumerics, kanji numerals, quote particles and whitespace, window limits 1-12 and default, with and without the dictionary check (terminator as a word, words containing / ending with / starting with it): sentences must partition the text on character boundaries within len+1 steps, every non-final sentence must end with a terminator group at bracket level 0, no break may sit inside / at the end of a multi-character dictionary word overlapping the terminator group; on the simple family every terminator group must end a sentence. No absence claim.",
+         "The converse is required only for texts within the window limit. Only words overlapping the terminator group are required to veto. The itemisation / decimal / quote-particle exceptions are exercised but only judged through the validity clauses.",
+         "DESIGN.md section 4, C16"),
  "C17": ("property-based testing (proptest): generated definition files against a union-of-covering-lines reference; point queries at all range ends and neighbours, random scalars, and (thorough) every scalar value",
          "Exploration: for generated char.def files (overlapping, nested, adjacent, duplicated, single-point ranges around 0, the UTF-8 width boundaries, the surrogate gap and U+10FFFF; ALL and NOOOVBOW flags; comments and category lines) that load, the reported classes at every range end +-1, 0, U+10FFFF and 64 random scalars equal the union of covering lines (DEFAULT if none); the range iterator must be ordered, gap free and consistent with point queries. No absence claim.",
          "Files the loader rejects (reversed range, range ending at U+D7FF or U+10FFFF, unknown class) are not judged: the statement speaks about files that load. The iterator is only checked for files with at least one range line.",
